@@ -321,10 +321,9 @@ func (c *cubicSender) SetMaxDatagramSize(s protocol.ByteCount) {
 	if s < c.maxDatagramSize {
 		panic(fmt.Sprintf("congestion BUG: decreased max datagram size from %d to %d", c.maxDatagramSize, s))
 	}
-	cwndIsMinCwnd := c.congestionWindow == c.minCongestionWindow()
 	c.maxDatagramSize = s
-	if cwndIsMinCwnd {
-		c.congestionWindow = c.minCongestionWindow()
-	}
+	// The minimum congestion window grows with the datagram size:
+	// make sure the congestion window doesn't end up below it.
+	c.congestionWindow = max(c.congestionWindow, c.minCongestionWindow())
 	c.pacer.SetMaxDatagramSize(s)
 }
